@@ -533,6 +533,13 @@ const CATALOGUE: &[(&str, &str)] = &[
     ("Bits::try_from_be_slice", "ruint::Bits::<{B}, {L}>::try_from_be_slice(&[]).unwrap().into_inner()"),
 ];
 
+/// (name, statement writing a non-canonical limb through the gate, expression template)
+const GATES: &[(&str, &str, &str)] = &[
+    ("Uint::as_limbs_mut", "v.as_limbs_mut()[{L} - 1] = u64::MAX;", "{ let mut v = <{T}>::ZERO; {STMT} v }"),
+    ("Uint::as_le_slice_mut", "v.as_le_slice_mut()[{BY} - 1] = 0xff;", "{ let mut v = <{T}>::ZERO; {STMT} v }"),
+    ("Bits::as_limbs_mut", "v.as_limbs_mut()[{L} - 1] = u64::MAX;", "{ let mut v = ruint::Bits::<{B}, {L}>::ZERO; {STMT} v.into_inner() }"),
+];
+
 fn probe_src(bits: usize, limbs: usize, expr: &str) -> String {
     let t = format!("ruint::Uint<{bits}, {limbs}>");
     let e = expr.replace("{T}", &t).replace("{B}", &bits.to_string()).replace("{L}", &limbs.to_string()).replace("{BY}", &((bits + 7) / 8).to_string());
@@ -679,6 +686,45 @@ fn part_b(args: &Args) -> ExtraResult {
             }
         }
     }
+    // Part C: the three public functions that hand out mutable access to the raw limbs / bytes
+    // are `unsafe fn`; called without an `unsafe` block a program writing a non-canonical limb must
+    // not compile. The twin with the `unsafe` block is the control (it must obtain the value).
+    {
+        let mut probes: Vec<(usize, usize, usize, bool)> = vec![];
+        for (b, l) in [(7usize, 1usize), (100, 2)] {
+            for g in 0..GATES.len() {
+                probes.push((b, l, g, false));
+                probes.push((b, l, g, true));
+            }
+        }
+        let res = par_map(&probes, args.threads, |k, (b, l, g, with_unsafe)| {
+            let stmt = if *with_unsafe { format!("unsafe {{ {} }}", GATES[*g].1) } else { GATES[*g].1.to_string() };
+            obtained(&env, &format!("gate{k}"), *b, *l, &GATES[*g].2.replace("{STMT}", &stmt))
+        });
+        let mut gate_ok = 0u64;
+        let mut gate_vacuous = vec![];
+        for ((b, l, g, with_unsafe), (ok, msg)) in probes.iter().zip(res.iter()) {
+            ex.evaluations += 1;
+            let name = GATES[*g].0;
+            match (*with_unsafe, *ok) {
+                (true, false) => gate_vacuous.push(format!("{name} at BITS={b}: {msg}")),
+                (false, true) => {
+                    let class = format!("non_canonical_through_safe_call:{name}");
+                    println!("failure: {name} is callable without `unsafe` and yields a non-canonical Uint<{b}, {l}>: {msg}");
+                    if seen.insert(class.clone()) {
+                        let expr = GATES[*g].2.replace("{STMT}", GATES[*g].1);
+                        let p = write_replay_value(&args.root, "C04", "unsafe_gate", &json!({"property": "C04", "rule": "ill_formed_probe", "bits": b, "limbs": l, "constructor": name, "expr": expr, "check": "unsafe_gate_probe", "failure_class": class, "message": msg}));
+                        ex.violations.push((class, p));
+                    }
+                }
+                (false, false) if msg.starts_with("compile") => gate_ok += 1,
+                _ => {}
+            }
+        }
+        ex.coverage.insert("unsafe_gate_probes".into(), json!(probes.len()));
+        ex.coverage.insert("unsafe_gate_rejected_at_compile_time".into(), json!(gate_ok));
+        ex.coverage.insert("unsafe_gate_vacuous".into(), json!(gate_vacuous));
+    }
     ex.coverage.insert("ill_formed_probes".into(), json!(items.len()));
     ex.coverage.insert("ill_formed_probe_space".into(), json!(all.len()));
     ex.coverage.insert("ill_formed_space_exhausted".into(), json!(items.len() == all.len()));
@@ -717,7 +763,7 @@ fn main() {
     }
     let spec = PropSpec {
         id: "C04",
-        rule_text: "Part A: register machine with 4 registers of Uint<BITS> and 2 of a second width; histories = 1..39 steps drawn from a catalogue of 144 safe public producers (constants; from_limbs / from_limbs_slice and its checked / wrapping / overflowing / saturating forms incl. out-of-range and over-long limb vectors; conversions from u64/i64/u128/i128/f64/f32 and other-width Uints; byte, string, digit decoders on generated inputs; all arithmetic, bit, shift, rotate, modular, gcd, pow, root operations; set_bit incl. out-of-range indices; rand 0.8 / 0.9 with seeded RNGs, random() and randomize() on the thread-local RNG (checked, never stored), arbitrary over generated bytes, proptest any() incl. shrunk values, quickcheck; serde_json, bincode, rlp, alloy-rlp, SCALE fixed/compact, SSZ, borsh, DER decoders fed encodings of the other-width registers; num-traits constructors; BigUint/BigInt conversions; Sum/Product; Bits wrapper). A step that panics leaves the registers unchanged. Invariant after every step: every register canonical (bits >= BITS zero, read through as_limbs), and for every register pair ==, Hash (SipHash, fixed keys), cmp, partial_cmp, <, <=, >, >=, min, max, is_zero agree with the integers. Exhaustive for BITS in {1,2,3,5,6}: all (a,b) pairs x every producer. Non-trivial history: non-aligned width and some step produced a value with bit BITS-1 set or was handed out-of-range input. Part B: generated programs for every ill-formed (BITS,LIMBS) in {0,1,63,64,65,128,129} x {0,1,2,3} x a catalogue of 60 constants/constructors; each obtains the value and dumps its raw memory without calling another Uint method; a compile error or run-time panic is correct, printing OBTAINED is a violation; every catalogue entry has control twins (well-formed LIMBS at 64 and 129 bits) that must print OBTAINED.",
+        rule_text: "Part A: register machine with 4 registers of Uint<BITS> and 2 of a second width; histories = 1..39 steps drawn from a catalogue of 144 safe public producers (constants; from_limbs / from_limbs_slice and its checked / wrapping / overflowing / saturating forms incl. out-of-range and over-long limb vectors; conversions from u64/i64/u128/i128/f64/f32 and other-width Uints; byte, string, digit decoders on generated inputs; all arithmetic, bit, shift, rotate, modular, gcd, pow, root operations; set_bit incl. out-of-range indices; rand 0.8 / 0.9 with seeded RNGs, random() and randomize() on the thread-local RNG (checked, never stored), arbitrary over generated bytes, proptest any() incl. shrunk values, quickcheck; serde_json, bincode, rlp, alloy-rlp, SCALE fixed/compact, SSZ, borsh, DER decoders fed encodings of the other-width registers; num-traits constructors; BigUint/BigInt conversions; Sum/Product; Bits wrapper). A step that panics leaves the registers unchanged. Invariant after every step: every register canonical (bits >= BITS zero, read through as_limbs), and for every register pair ==, Hash (SipHash, fixed keys), cmp, partial_cmp, <, <=, >, >=, min, max, is_zero agree with the integers. Exhaustive for BITS in {1,2,3,5,6}: all (a,b) pairs x every producer. Non-trivial history: non-aligned width and some step produced a value with bit BITS-1 set or was handed out-of-range input. Part B: generated programs for every ill-formed (BITS,LIMBS) in {0,1,63,64,65,128,129} x {0,1,2,3} x a catalogue of 60 constants/constructors; each obtains the value and dumps its raw memory without calling another Uint method; a compile error or run-time panic is correct, printing OBTAINED is a violation; every catalogue entry has control twins (well-formed LIMBS at 64 and 129 bits) that must print OBTAINED. Part C: programs that write a non-canonical limb through Uint::as_limbs_mut, Uint::as_le_slice_mut and Bits::as_limbs_mut without an `unsafe` block must be rejected by the compiler (twins with the block are the controls).",
         assumptions: vec![
             "Part A keeps no model of the operations' semantics: it can only alarm about the invariant",
             "quickcheck::Gen cannot be seeded: its values are checked but not reproducible from the seed (failing values are saved in the replay file)",
